@@ -113,6 +113,14 @@ def generate(outdir):
             text = text.replace(tok, repl)
         if not found_any:
             raise AnchorError("none of the seam anchors %r found in %s" % ([r[0] for r in rules], src))
+        if rel == "services/ftp/socket.go":
+            # active-mode data connections: the socket keeps its connection as *net.TCPConn, which a simulated
+            # connection cannot be.  When the declaration still reads as below, it becomes a net.Conn (only Read,
+            # Write and Close are used on it) and the dial goes to the seam that returns one; otherwise the dial stays
+            # with the seam of the concrete type, which refuses inside the simulation (active mode not exercised).
+            decl = "type ftpActiveSocket struct {\n\tconn *net.TCPConn\n"
+            if decl in text and "socket.conn = tcpConn" in text:
+                text = text.replace(decl, "type ftpActiveSocket struct {\n\tconn net.Conn\n").replace("VerifDialTCP(", "VerifDialConn(")
         dst = os.path.join(outdir, rel.replace("/", "__"))
         with open(dst, "w", encoding="utf-8") as f:
             f.write(text)
